@@ -64,12 +64,25 @@ def gen_case(rng, idx, tier):
         U, P, W = cur["U"], cur["P"], cur["W"]
         kind = "rational" if W is not None else "smooth"
     mode = rng.choice(["off", "off", "on", "far", "vertex"])
+    if kind == "polyline" and dim == 2 and len(P) >= 3 and rng.random() < 0.25:
+        mode = "near-tie"
     pt = None
     if mode == "on":
         a, b = U[0], U[-1]
         pt = ["on", lib.enc(a + (b - a) * F(rng.randint(0, 40), 40))]
     elif mode == "vertex":
         pt = ["vertex", rng.randrange(len(P))]
+    elif mode == "near-tie":
+        # a far point almost on the perpendicular bisector of two vertices: two local candidates whose distances differ
+        # by 2e-6..1e-3 at a distance of 1e2..1e3 ("all at the same distance within 1e-6" is an absolute bound)
+        i, j = rng.sample(range(len(P)), 2)
+        vi, vj = P[i], P[j]
+        mid = [(a + b) / 2 for a, b in zip(vi, vj)]
+        e = [b - a for a, b in zip(vi, vj)]
+        nrm = [-e[1], e[0]]
+        t = rng.choice([-1, 1]) * F(rng.choice([100, 300, 1000])) / max(1, int(float(e[0] * e[0] + e[1] * e[1]) ** 0.5))
+        delta = F(rng.choice([1, 3, 10, 50]), 10**4)
+        pt = ["pt", lib.enc([mid[0] + t * nrm[0] + delta * e[0], mid[1] + t * nrm[1] + delta * e[1]])]
     elif mode == "far":
         pt = ["pt", lib.enc([F(rng.randint(-200, 200)) for _ in range(dim)])]
     else:
@@ -130,7 +143,7 @@ def run_case(case, ctx):
 
     dists = [math.dist(at(t), point) for t in ts]
     sc = max([1.0] + [abs(c) for c in point] + [abs(float(c)) for pt in rc.P for c in pt])
-    ctx.check(max(dists) - min(dists) <= 1e-6 * max(1.0, sc / 10), f"proj:unequal-distances:{kind}", f"returned parameters are not at the same distance: {dists}")
+    ctx.check(max(dists) - min(dists) <= 1e-6 + 1e-10 * sc, f"proj:unequal-distances:{kind}", f"returned parameters are not at the same distance: {dists}")
     dret = min(dists)
     if kind == "rational-polyline":
         # outside the guaranteed class (the problem is not piecewise linear in u): minimality is reported only
